@@ -41,6 +41,8 @@ type Config struct {
 	SolverKind       string
 	SolverTimeoutMs  int
 	SampleModels     int
+	CrossSolver      string
+	CrossEvery       int
 	Fallback         string
 	Seed             int
 	Unwind           int
@@ -57,6 +59,9 @@ type Program struct {
 	LoadTime     time.Duration
 	PkgCount     int
 	doneCount    int64
+	obligN       int64
+	crossN       int64
+	crossUnknown int64
 }
 
 // Load loads package pkgPath (relative to repoDir, e.g. "./xbinary") with harness files overlaid into its directory.
@@ -240,6 +245,8 @@ type Result struct {
 	Samples      []string
 	Budget       bool
 	Rescued      int
+	CrossChecked int
+	CrossUnknown int
 	Models       [][]NDValue
 }
 
@@ -320,6 +327,9 @@ func (p *Program) RunEntry(entry string) *Result {
 		}()
 	}
 	atomic.StoreInt64(&p.doneCount, 0)
+	atomic.StoreInt64(&p.crossN, 0)
+	atomic.StoreInt64(&p.crossUnknown, 0)
+	p.obligN = 0
 	for w := 0; w < workers; w++ {
 		wg.Add(1)
 		go func() {
@@ -340,6 +350,21 @@ func (p *Program) RunEntry(entry string) *Result {
 				return
 			}
 			defer s.Close()
+			var cs *Solver
+			getCS := func() *Solver {
+				if p.Cfg.CrossSolver == "" {
+					return nil
+				}
+				if cs == nil {
+					cs, _ = NewSolver(p.Cfg.CrossSolver, 30000)
+				}
+				return cs
+			}
+			defer func() {
+				if cs != nil {
+					cs.Close()
+				}
+			}()
 			var fb *Solver
 			getFB := func() *Solver {
 				if p.Cfg.Fallback == "" {
@@ -365,7 +390,7 @@ func (p *Program) RunEntry(entry string) *Result {
 				if !ok {
 					break
 				}
-				x, end := p.runPath(fn, prefix, s, getFB)
+				x, end := p.runPath(fn, prefix, s, getFB, getCS)
 				mu.Lock()
 				res.Paths++
 				res.Blocks += int64(x.blocks)
@@ -439,11 +464,13 @@ func (p *Program) RunEntry(entry string) *Result {
 	}
 	sort.Slice(res.Violations, func(i, j int) bool { return len(res.Violations[i].Trace) < len(res.Violations[j].Trace) })
 	res.Wall = time.Since(start)
+	res.CrossChecked = int(atomic.LoadInt64(&p.crossN))
+	res.CrossUnknown = int(atomic.LoadInt64(&p.crossUnknown))
 	return res
 }
 
-func (p *Program) runPath(fn *ssa.Function, prefix []int, s *Solver, fb func() *Solver) (x *Exec, end pathEnd) {
-	x = &Exec{P: p, F: NewFactory(), S: s, prefix: prefix, fallback: fb,
+func (p *Program) runPath(fn *ssa.Function, prefix []int, s *Solver, fb func() *Solver, cs func() *Solver) (x *Exec, end pathEnd) {
+	x = &Exec{P: p, F: NewFactory(), S: s, prefix: prefix, fallback: fb, cross: cs,
 		pcSet: map[*Term]bool{}, globals: map[*ssa.Global]*Cell{}, reached: map[string]bool{}, asserts: map[string]bool{},
 		pools: map[*Cell]*poolState{}, mutexOwn: map[*Cell]*Thread{}, errObjs: map[string]Iface{}, closures: map[*ssa.Function]*Closure{},
 		funcs: map[string]bool{}, mapRev: p.Cfg.MapReverse}
